@@ -102,6 +102,10 @@ def _sizes(ctx):
     return (500, 150) if ctx.quick else (9000, 2500)
 
 
+def _insp_size(ctx):
+    return 40 if ctx.quick else 800
+
+
 def _idx_size(ctx):
     return 150 if ctx.quick else 2500
 
@@ -112,6 +116,7 @@ def ties(ctx):
     hi = harness(ctx, 'c01_celtidx', 'san')
     return parallel(common.run_tie, [('decskel-rand', [h, 'rand', str(ctx.seed), str(nr)]),
                                      ('decskel-ms', [h, 'ms', str(ctx.seed), str(nm)]),
+                                     ('decskel-insp', [h, 'insp', str(ctx.seed), str(_insp_size(ctx))]),
                                      ('celtidx', [hi, 'run', str(ctx.seed), str(_idx_size(ctx))])])
 
 
@@ -197,7 +202,10 @@ def search(ctx):
     """The C01 predicate evaluated on the implementation (no model): return-value range, documented errors, canaries
     (plain build) / ASan+UBSan (san build), finiteness of every produced sample, announced duration and
     OPUS_GET_LAST_PACKET_DURATION, exact concealment durations, 20 s watchdog per call; single-stream, multistream and
-    projection decoders with random layouts.  CELT interior: bare CELT decoders driven with crafted post-filter headers
+    projection decoders with random layouts.  Packet-inspection functions (get_bandwidth / nb_channels / samples_per_frame /
+    nb_frames / nb_samples, opus_decoder_get_nb_samples, has_lbrr, parse, parse_impl(self-delimited), multistream validate) on
+    exact-size heap copies and with three different guard-byte fills behind the packet (result must not depend on them), for
+    every 1- and 2-byte packet, structured 3/4-byte packets, synthetic / encoder / truncated / bit-flipped packets.  CELT interior: bare CELT decoders driven with crafted post-filter headers
     (period extremes), random and lost frames; every recorded comb_filter / decode_mem shift stays inside its channel
     buffer, periods stay in {0} u [15, 1024), ASan + celt_assert on."""
     nr, nm = _sizes(ctx)
@@ -209,7 +217,8 @@ def search(ctx):
         rc, out, err = _run_search(hs[variant], args, 3000)
         return variant, mode, args, rc, out, err
 
-    jobs = [(variant, off, mode, n) for variant, off in (('plain', 1000), ('san', 2000)) for mode, n in (('rand', nr), ('ms', nm))]
+    jobs = [(variant, off, mode, n) for variant, off in (('plain', 1000), ('san', 2000))
+            for mode, n in (('rand', nr), ('ms', nm), ('insp', _insp_size(ctx) * 2))]
     for variant, mode, args, rc, out, err in parallel(one, jobs):
         h = hs[variant]
         m = re.search(r'# \w+ seed=\d+ sessions=\d+ calls=(\d+) witnesses=(\d+)', out)
